@@ -315,10 +315,12 @@ impl AddressRange {
     }
 
     fn limited_count(self, limit: u16) -> Result<Self, InvalidRange> {
-        if self.count > limit {
-            return Err(InvalidRange::CountTooLargeForType(self.count, limit));
+        // the fields are public: a range that was not built with try_from is checked here
+        let range = Self::try_from(self.start, self.count)?;
+        if range.count > limit {
+            return Err(InvalidRange::CountTooLargeForType(range.count, limit));
         }
-        Ok(self)
+        Ok(range)
     }
 }
 
